@@ -254,6 +254,9 @@ func c06b(c *Ctx) {
 					nMiss++
 					labelT = v
 					want := "parser." + s.labelFn + "(" + elem + ".scriptName,$0." + s.counts + "[" + elem + ".scriptName])"
+					if v != want && labelCallMatches(c, core, r.Results[0], s.labelFn, elem+".scriptName", "$0."+s.counts+"["+elem+".scriptName]") {
+						v = want
+					}
 					c.Check(v == want, name+"/miss-new-label", c.W.Pos(r.Pos()), "new content: label made from the owning script and its counter", "on a miss the helper returns "+pretty(v)+", expected "+pretty(want))
 				}
 			}
@@ -318,6 +321,9 @@ func c06b(c *Ctx) {
 					nMiss++
 					labelT = v
 					want := "parser." + s.labelFn + "(" + elem + ".scriptName,$0." + s.counts + "[" + elem + ".scriptName])"
+					if v != want && labelCallMatches(c, fn, st.Val, s.labelFn, elem+".scriptName", "$0."+s.counts+"["+elem+".scriptName]") {
+						v = want
+					}
 					c.Check(v == want, name+"/miss-new-label", c.W.Pos(st.Pos()), "new content: label made from the owning script and its counter", "on a miss the argument gets "+pretty(v)+", expected "+pretty(want))
 				}
 			})
@@ -472,7 +478,7 @@ func c06d(c *Ctx) {
 		ok := false
 		got := ""
 		if len(rets) == 1 {
-			if f, ops, isF := sprintfOf(rets[0].Results[0]); isF {
+			if f, ops, isF := flatTemplate(rets[0].Results[0], 0); isF {
 				got = f
 				ok = f == want && len(ops) == 2 && c.term(fn, ops[0]) == "$0" && c.term(fn, ops[1]) == "$1"
 			}
@@ -1136,4 +1142,18 @@ func onlyCalledBeforeLoop(c *Ctx, g, pp, top *ssa.Function) bool {
 		}
 	}
 	return true
+}
+
+// labelCallMatches: v is a call of the label function labelFn with the two given argument terms
+// (the term of a small pure function may be its body written out; the call itself is what counts).
+func labelCallMatches(c *Ctx, fn *ssa.Function, v ssa.Value, labelFn, a0, a1 string) bool {
+	call, ok := v.(*ssa.Call)
+	if !ok {
+		return false
+	}
+	g := callee(call)
+	if g == nil || g.Name() != labelFn || len(call.Call.Args) != 2 {
+		return false
+	}
+	return c.term(fn, call.Call.Args[0]) == a0 && c.term(fn, call.Call.Args[1]) == a1
 }
